@@ -110,6 +110,12 @@ func gen(a Args, out *Out) {
 		jobs = append(jobs, job{kind, nil})
 		ins = append(ins, in)
 	}
+	ru := rng.Fork()
+	for k := 0; k < 12*mult && (len(focus) == 0 || focus["unstarted-newtcpconn"] || focus["unstarted-from-backlog"] || focus["unstarted-backlog-leftover"]); k++ {
+		kind, in := connsim.UnstartedScenario(ru)
+		jobs = append(jobs, job{kind, nil})
+		ins = append(ins, in)
+	}
 	// always one listener whose hand-off channel is full and undrained when Close is called
 	if len(focus) == 0 {
 		jobs = append(jobs, job{"listener-backlog-full", nil})
